@@ -84,6 +84,26 @@ def r_override(ctx, model):
         ctx.fn(f"{QHACALC}.{name}")
         bv = {(v[0], v[1]) for v in validations(bm[name])}
         ov = validations(f)
+        # refusals placed in a helper of the class (self._require_x(arg) / cls.x(arg) / a module-level function): the guard's
+        # first argument is mapped back to what the call site passes
+        mod_ = model.mods[QHACALC.split(":")[0]]
+        sn_ = f.args.args[0].arg if f.args.args else "self"
+        for c in ast.walk(f):
+            if not isinstance(c, ast.Call):
+                continue
+            helper = None
+            if isinstance(c.func, ast.Attribute) and isinstance(c.func.value, ast.Name) and c.func.value.id in (sn_, "cls", cls.name) and c.func.attr in om and c.func.attr != name:
+                helper = om[c.func.attr]
+                skip = 0 if any((dotted_name(d) or "") == "staticmethod" for d in helper.decorator_list) else 1
+            elif isinstance(c.func, ast.Name) and c.func.id in mod_.funcs:
+                helper, skip = mod_.funcs[c.func.id], 0
+            if helper is None:
+                continue
+            params = [a.arg for a in helper.args.args][skip:]
+            bind = {p_: src(a_) for p_, a_ in zip(params, c.args)}
+            bind.update({kw.arg: src(kw.value) for kw in c.keywords if kw.arg})
+            for nm_, neg_, arg_ in validations(helper):
+                ov.append((nm_, neg_, bind.get(arg_, arg_)))
         ovs = {(v[0], v[1]) for v in ov}
         missing = sorted(bv - ovs)
         ctx.libfact(f"installed qha Calculator.{name} refuses under {sorted(bv)}")
